@@ -361,3 +361,106 @@ func H_API_PolyLineT(p []int) {
 	vAssert(A.IntersectsLine(B) == sLineMeetsPoly(a, nil, b), "C02.api-poly-intersects-line")
 	vCover("api.polylinet")
 }
+
+// H_API_PolyPolyHole: concrete polygon A WITH a hole against a concrete hole-free shape B under an arbitrary real
+// translation: intersects in both operand orders (a shape wholly inside the hole's open interior does not
+// intersect; touching the hole boundary does), and A contains B. params: kind, ring A, hole of A, ring B
+func H_API_PolyPolyHole(p []int) {
+	kind := p[0]
+	a, off := vConcreteRing(p, 1)
+	h, off2 := vConcreteRing(p, off)
+	b0, _ := vConcreteRing(p, off2)
+	tx, ty := vF("tx", 0), vF("ty", 0)
+	b := make([]Point, len(b0))
+	for i := range b0 {
+		b[i] = Point{b0[i].X + tx, b0[i].Y + ty}
+	}
+	minPts := 0
+	if kind != 0 {
+		minPts = 1
+	}
+	opts := &IndexOptions{Kind: vKind(kind), MinPoints: minPts}
+	A := NewPoly(vClose(a), [][]Point{vClose(h)}, opts)
+	B := NewPoly(vClose(b), nil, opts)
+	// B (connected) meets A iff it meets A's exterior region and is not wholly inside the hole's open interior
+	inHole := true
+	n := len(b)
+	for i := 0; i < n; i++ {
+		if !sSegInOpen(h, b[i], b[(i+1)%n]) {
+			inHole = false
+		}
+	}
+	meet := sRegionsMeet(a, b) && !inHole
+	vAssert(A.IntersectsPoly(B) == meet, "C02.api-holed-poly-intersects-poly")
+	vAssert(B.IntersectsPoly(A) == meet, "C02.api-poly-intersects-holed-poly")
+	// A contains B iff B's boundary stays in A's exterior region, does not enter the hole, and the hole is not inside B
+	entersHole := false
+	for i := 0; i < n; i++ {
+		if sSegMeetsOpen(h, b[i], b[(i+1)%n]) {
+			entersHole = true
+		}
+	}
+	holeInB := sInRingOpen(b, Point{(h[0].X + h[1].X + h[2].X) / 3, (h[0].Y + h[1].Y + h[2].Y) / 3})
+	touch := false
+	for i := 0; i < n; i++ {
+		if vContact(h, b[i], b[(i+1)%n]) {
+			touch = true
+		}
+	}
+	if !touch { // the open-interior test against holes has a known finding when B touches the hole boundary
+		vAssert(A.ContainsPoly(B) == (sRingEdgesIn(a, b) && !entersHole && !holeInB), "C03.api-holed-poly-contains-poly")
+	}
+	vCover("api.polypolyhole")
+}
+
+func sBetweenStrict(x, lo, hi float64) bool { return lo < x && x < hi }
+
+// H_API_HolesRect: axis-aligned rectangles only. A = [0,aw]x[0,ah] with two rectangular holes (given in either
+// order), B = a rectangle with a rectangular hole under an arbitrary real translation, in general position
+// (no edge of B is level with an edge of A: assumed). A contains B iff B's exterior is inside A's exterior and
+// each hole of A is either disjoint from B's exterior or strictly inside B's hole.
+// params: order, aw, ah, h1 (x0,y0,x1,y1), h2 (x0,y0,x1,y1), B (w,h), K (x0,y0,x1,y1)
+func H_API_HolesRect(p []int) {
+	order := p[0]
+	f := func(i int) float64 { return float64(p[i]) }
+	rectRing := func(x0, y0, x1, y1 float64) []Point {
+		return []Point{{x0, y0}, {x1, y0}, {x1, y1}, {x0, y1}}
+	}
+	aw, ah := f(1), f(2)
+	h1 := [4]float64{f(3), f(4), f(5), f(6)}
+	h2 := [4]float64{f(7), f(8), f(9), f(10)}
+	bw, bh := f(11), f(12)
+	k := [4]float64{f(13), f(14), f(15), f(16)}
+	tx, ty := vF("tx", 0), vF("ty", 0)
+	holesA := [][4]float64{h1, h2}
+	if order == 1 {
+		holesA = [][4]float64{h2, h1}
+	}
+	var holeRings [][]Point
+	for _, h := range holesA {
+		holeRings = append(holeRings, vClose(rectRing(h[0], h[1], h[2], h[3])))
+	}
+	A := NewPoly(vClose(rectRing(0, 0, aw, ah)), holeRings, vNoIndex)
+	bx0, by0, bx1, by1 := tx, ty, tx+bw, ty+bh
+	kx0, ky0, kx1, ky1 := tx+k[0], ty+k[1], tx+k[2], ty+k[3]
+	B := NewPoly(vClose(rectRing(bx0, by0, bx1, by1)), [][]Point{vClose(rectRing(kx0, ky0, kx1, ky1))}, vNoIndex)
+	// general position: no vertical (horizontal) edge of B or K shares its x (y) with one of A or its holes
+	xsA := []float64{0, aw, h1[0], h1[2], h2[0], h2[2]}
+	ysA := []float64{0, ah, h1[1], h1[3], h2[1], h2[3]}
+	for _, xa := range xsA {
+		vAssume(bx0 != xa && bx1 != xa && kx0 != xa && kx1 != xa)
+	}
+	for _, ya := range ysA {
+		vAssume(by0 != ya && by1 != ya && ky0 != ya && ky1 != ya)
+	}
+	want := bx0 > 0 && bx1 < aw && by0 > 0 && by1 < ah
+	for _, h := range holesA {
+		disjoint := h[2] < bx0 || h[0] > bx1 || h[3] < by0 || h[1] > by1
+		inK := sBetweenStrict(h[0], kx0, kx1) && sBetweenStrict(h[2], kx0, kx1) && sBetweenStrict(h[1], ky0, ky1) && sBetweenStrict(h[3], ky0, ky1)
+		if !disjoint && !inK {
+			want = false
+		}
+	}
+	vAssert(A.ContainsPoly(B) == want, "C03.api-holes-contains-holed-poly")
+	vCover("api.holesrect")
+}
